@@ -32,7 +32,7 @@ def check(cx):
     r1 = cx.rule("C15.1", "SIB/FLOW: execute_create_table / execute_create_index / execute_drop_table / execute_alter_table "
                  "append exactly one log record on every success path that changes the catalog; the redo argument "
                  "serialises the executed instruction (or, for DROP, the inverse of the saved CREATE) and the undo "
-                 "argument its inverse", floor=8)
+                 "argument its inverse; a CREATE record carries the id of the object that was created", floor=10)
     table = {
         # executor: (logger method, redo arg, undo arg, redo must depend on, redo must NOT depend on, undo must depend on, undo must NOT ..)
         "execute_create_table": ("log_create", 2, 3, {"param"}, {"inverse"}, {"inverse"}, set()),
@@ -70,6 +70,16 @@ def check(cx):
                    "%s passes redo derived from %s and undo derived from %s to %s (expected redo <- %s, undo <- %s): "
                    "recovery replays the inverse of the committed change" % (
                        name, sorted(rt & (rneed | uneed | rnot | unot)), sorted(ut & (rneed | uneed | rnot | unot)), lm, sorted(rneed), sorted(uneed)))
+        # the record names the object the statement created: for CREATE, the id comes from the call that made the object,
+        # not from a field of the instruction (recovery's undo_create drops whatever object the record names)
+        if lm == "log_create":
+            prov = f.nearest_calls(op_local(c.args[1]))
+            makers = sorted(x[1].rsplit("::", 1)[-1] for x in prov if x[0] == "call")
+            cx.verdict(bool(makers) and not any(x[0] == "param" for x in prov) and
+                       all(m_ in ("get_next_object_id", "create_unique_index", "create_table", "create_index", "object_id") for m_ in makers),
+                       r1, name + ":object-id-of-created-object", c.where(), "object id <- %s" % makers,
+                       "%s logs its CREATE under an object id that does not come from the call that created the object (%s): recovery's "
+                       "undo of an uncommitted CREATE INDEX then drops the object the record names - the table" % (name, makers or "a field of the instruction"))
         # the record is appended after the catalog change
         changes = [x for x in f.calls() if x.callee in (CAT + "::store_relation", CAT + "::update_relation", CAT + "::remove_relation",
                                                         DDL + "::create_unique_index")]
@@ -258,3 +268,31 @@ def check(cx):
                                "the inverse of %s when the recorded previous state flag is %d is %s, it must be %s: undoing a redundant "
                                "ALTER COLUMN (e.g. SET NOT NULL on a column that already was NOT NULL) removes the constraint" % (
                                    var, val, sorted(got.get(val) or []), want))
+
+    # ---- C15.9 the name->position map of a schema follows every position-shifting edit --------------------------------
+    r9 = cx.rule("C15.9", "MPT: in Schema, every edit of the column vector that shifts positions (Vec::remove / insert / swap_remove / "
+                 "retain / drain / truncate on `columns`) is followed on every path by a complete rebuild of the name index "
+                 "(reindex / build_column_index); only an append may update the map incrementally. The map is stored with the catalog row.", floor=1)
+    SCH = "schema::base::Schema"
+    rebuild = {g.id for g in p.fns.values() if g.impl_adt == SCH and g.name in ("reindex", "build_column_index")}
+    if not rebuild:
+        cx.bad(r9, "anchor-missing:reindex", "", "Schema::reindex / build_column_index not found")
+    else:
+        T9 = p.must_reach_set(rebuild)
+        n9 = 0
+        for g in sorted(p.fns.values(), key=lambda x: x.id):
+            if g.impl_adt != SCH:
+                continue
+            for c in g.calls():
+                short = c.callee.rsplit("::", 1)[-1]
+                if short not in ("remove", "insert", "swap_remove", "retain", "drain", "truncate") or not c.callee.startswith("std::vec::Vec") \
+                        or not any("schema::base::Column" in a for a in c.gargs):
+                    continue
+                n9 += 1
+                good = c.term["to"] is not None and p.all_success_paths_call(g, T9, c.term["to"])
+                cx.verdict(good, r9, "%s:%s" % (g.name, short), c.where(), "followed by a rebuild of column_index",
+                           "Schema::%s shifts column positions with Vec::%s and does not rebuild the name index afterwards: every later column "
+                           "is looked up one position off (reads return the neighbour's values, writes land in the wrong column), and the stale "
+                           "map is persisted with the catalog row" % (g.name, short))
+        if n9 == 0:
+            cx.bad(r9, "no-shifting-edit", "", "no position-shifting edit of Schema.columns found (DROP COLUMN gone?)")
